@@ -106,6 +106,8 @@ def _worker(args):
         mod = importlib.import_module("checks." + prop.lower())
         sub = [s for s in mod.subs(tier) if s.name == subname][0]
         ntset = set()
+        curfile = os.path.join(VERIF, ".cache", "current", "%s_%s_%d.json" % (prop, subname, wid))
+        os.makedirs(os.path.dirname(curfile), exist_ok=True)
         state = dict(fail_case=None, fail_out=None, after_fail=0)
 
         def body(case):
@@ -116,6 +118,11 @@ def _worker(args):
                 state["after_fail"] += 1
                 if state["after_fail"] > sub.shrink_budget:
                     raise _Abort()
+            try:
+                with open(curfile, "w") as cf:
+                    cf.write(canon(case))
+            except Exception:
+                pass
             out = sub.run(case)
             res["evaluations"] += 1
             if out.discard:
@@ -188,6 +195,71 @@ def _worker(args):
     return res
 
 
+def _child(func, arg, conn):
+    try:
+        conn.send(func(arg))
+    except BaseException as e:  # pragma: no cover
+        try:
+            conn.send(dict(_child_exception="".join(traceback.format_exception(type(e), e, e.__traceback__))[-2000:]))
+        except Exception:
+            pass
+    finally:
+        conn.close()
+
+
+def run_jobs(func, args_list, nproc, ctx, hard_timeout=None):
+    """Run func(arg) for every arg, each in its OWN process (at most nproc at a time).  Unlike multiprocessing.Pool this
+    survives a worker that dies (segfault in the code under test, sanitizer abort): the job then yields
+    {"_crashed": exit code}.  A job exceeding hard_timeout is terminated and yields {"_timeout": True}."""
+    results = [None] * len(args_list)
+    pending = list(range(len(args_list)))
+    running = {}
+    while pending or running:
+        while pending and len(running) < nproc:
+            i = pending.pop(0)
+            pc, cc = ctx.Pipe(duplex=False)
+            pr = ctx.Process(target=_child, args=(func, args_list[i], cc))
+            pr.start()
+            cc.close()
+            running[i] = (pr, pc, time.time())
+        done = []
+        for i, (pr, pc, t0) in running.items():
+            try:
+                if pc.poll(0.02):
+                    results[i] = pc.recv()
+                    pr.join(10)
+                    if pr.is_alive():
+                        pr.terminate()
+                    done.append(i)
+                    continue
+            except (EOFError, OSError):
+                pass
+            if not pr.is_alive():
+                try:
+                    if pc.poll(0.2):
+                        results[i] = pc.recv()
+                    else:
+                        results[i] = dict(_crashed=pr.exitcode)
+                except (EOFError, OSError):
+                    results[i] = dict(_crashed=pr.exitcode)
+                pr.join()
+                done.append(i)
+            elif hard_timeout and time.time() - t0 > hard_timeout:
+                pr.terminate()
+                pr.join(5)
+                if pr.is_alive():
+                    pr.kill()
+                results[i] = dict(_timeout=True)
+                done.append(i)
+        for i in done:
+            try:
+                running[i][1].close()
+            except Exception:
+                pass
+            del running[i]
+    return results
+
+
 def load_known(prop):
     p = os.path.join(VERIF, "known_findings.json")
     if not os.path.exists(p):
@@ -217,9 +289,21 @@ def run_case_isolated(args):
 def replay3(prop, subname, case, tier, arts, pool_ctx):
     outs = []
     for i in range(3):
-        with pool_ctx.Pool(1) as p:
-            outs.append(p.map(run_case_isolated, [(prop, subname, case, tier, arts, 90 + i)])[0])
+        o = run_jobs(run_case_isolated, [(prop, subname, case, tier, arts, 90 + i)], 1, pool_ctx, hard_timeout=3600)[0]
+        outs.append(_norm_isolated(o))
     return outs
+
+
+def _norm_isolated(o):
+    """a process that died while executing the case is a failing execution of that case"""
+    if o is None or "_timeout" in o:
+        return dict(ok=None, msg="timeout", sig="", discard=True)
+    if "_crashed" in o:
+        return dict(ok=False, msg="the process executing this case died (exit code %s: signal / sanitizer abort inside the code under test)" % o["_crashed"],
+                    sig="crash:exit%s" % o["_crashed"], discard=False)
+    if "_child_exception" in o:
+        return dict(ok=None, msg="harness error: " + o["_child_exception"], sig="", discard=False)
+    return o
 
 
 def main(argv=None):
@@ -285,8 +369,8 @@ def main(argv=None):
             if rp["sub"] not in [s.name for s in subs]:
                 continue
             jobs.append((f, rp))
-        with ctx.Pool(min(16, max(1, len(jobs)))) as p:
-            outs = p.map(run_case_isolated, [(prop, rp["sub"], rp["case"], tier, arts, 60 + (i % 30)) for i, (f, rp) in enumerate(jobs)])
+        outs = [_norm_isolated(o) for o in run_jobs(run_case_isolated, [(prop, rp["sub"], rp["case"], tier, arts, 60 + (i % 30)) for i, (f, rp) in enumerate(jobs)],
+                                                    min(16, max(1, len(jobs))), ctx, hard_timeout=3600)]
         for (f, rp), o in zip(jobs, outs):
             n_regress += 1
             if o["ok"] is False:
@@ -342,8 +426,30 @@ def main(argv=None):
             wseed = int(hashlib.sha256(("%d/%s/%s/%d" % (seed, prop, s.name, i)).encode()).hexdigest()[:12], 16)
             jobs.append((prop, s.name, wseed, nex, tier, wid % 48, arts, known, dl, None))
             wid += 1
-    with ctx.Pool(min(total_workers, len(jobs))) as p:
-        results = p.map(_worker, jobs, chunksize=1)
+    raw = run_jobs(_worker, jobs, min(total_workers, max(1, len(jobs))), ctx,
+                   hard_timeout=max(s.max_wall[tier] for s in subs) + 900)
+    results = []
+    for job, r in zip(jobs, raw):
+        if r is not None and "_crashed" not in r and "_timeout" not in r and "_child_exception" not in r:
+            results.append(r)
+            continue
+        base = dict(sub=job[1], wid=job[5], evaluations=0, nontrivial=[], classes={}, metrics={}, samples=[], failure=None,
+                    error=None, inconclusive=False, known_hits={}, discards=0, seed=job[2], wall=0.0)
+        if r is not None and "_crashed" in r:
+            # the worker died inside the code under test: the case it was executing is on disk
+            cur = os.path.join(VERIF, ".cache", "current", "%s_%s_%d.json" % (prop, job[1], job[5]))
+            try:
+                case = json.load(open(cur))
+                base["failure"] = dict(case=case, msg="worker process died (exit code %s) while executing this case" % r["_crashed"],
+                                       sig="crash:exit%s" % r["_crashed"])
+                base["evaluations"] = 1
+            except Exception:
+                base["error"] = "worker died (exit code %s) and the case it was executing could not be recovered" % r["_crashed"]
+        elif r is not None and "_timeout" in r:
+            base["inconclusive"] = True
+        else:
+            base["error"] = (r or {}).get("_child_exception", "worker returned nothing")
+        results.append(base)
 
     # ---- aggregate
     agg = {}
